@@ -116,6 +116,11 @@ def _cli_op(rng):
             txt = ":root{--undefined0:%s;--undefined1:%s;--x-shared:%s}\n" % tuple(gen.spell(rng, gen.rand_rgb(rng))[0] for _ in range(3)) + txt
         elif m < 0.6:
             txt += "\n.xref%d{color:%s}" % (rng.randrange(50), rng.choice(("var(--x-shared)", "var(--x-shared, #777)", "var(--undefined0, #767676)", "var(--undefined1)")))
+        if rng.random() < 0.3:
+            # one of a few text colours, sometimes as the fallback of an undefined custom property with an annotation inside the
+            # value: whatever a CLI run keeps per replacement colour while rewriting such a declaration must not reach later runs
+            col = rng.choice(("#777777", "#777777", "#999999", "#8a8a8a"))
+            txt += "\n.cmt%d{color:%s}" % (rng.randrange(50), rng.choice(("/* brand */ var(--cmt-undefined, %s)", "var(--cmt-undefined, %s) /* muted */", "%s", "%s")) % col)
         if rng.random() < 0.2:
             txt = "\ufeff" + txt  # saved by an editor that writes a byte-order mark
         if rng.random() < 0.3:
